@@ -200,6 +200,8 @@ def cases(tier, seed):
         idx = sorted(int(x) for x in r.choice(len(HARMONICS), nh, replace=False))
         yield dict(kind="grid", cls=CLASSES[(i // 4) % 2], energy=energy, gpts=[gx, gy], sampling=[sx, sy],
                    harmonics=idx, cseed=int(r.integers(1 << 30)), grid_via=str(r.choice(["sampling", "extent"])),
+                   cutoff_frac=(float(r.uniform(0.4, 0.9)) if CLASSES[(i // 4) % 2] == "CTF" and (i // 16) % 2 == 1 else None),
+                   soft=bool(i % 3 == 0),
                    precision=["float32", "float64"][(i // 8) % 2], delta=float(r.uniform(-math.pi, math.pi)))
 
     for i in range(BOUNDS["history"][tier]):
@@ -454,13 +456,24 @@ def _run_grid(np, case):
     p = _random_set(r, lam, amax, hs, share=3.0 / len(hs))
     grid = dict(gpts=gpts, sampling=samp) if case["grid_via"] == "sampling" else \
         dict(gpts=gpts, extent=(gpts[0] * samp[0], gpts[1] * samp[1]))
-    obj = _build(cls, case["energy"], p, "symbol-dict", extra=grid)
+    extra = dict(grid)
+    inside = np.ones(alpha.shape, bool)
+    if case.get("cutoff_frac"):
+        # a CTF with an objective aperture: inside the aperture (where it transmits fully) the phase is still the expansion
+        px = max(lam / (gpts[0] * samp[0]), lam / (gpts[1] * samp[1]))
+        cutoff = case["cutoff_frac"] * min(lam / (gpts[0] * samp[0]) * (gpts[0] // 2), lam / (gpts[1] * samp[1]) * (gpts[1] // 2))
+        extra.update(semiangle_cutoff=cutoff * 1e3, soft=case["soft"])
+        inside = alpha <= cutoff - 0.51 * px
+    obj = _build(cls, case["energy"], p, "symbol-dict", extra=extra)
     got = obj._evaluate_kernel()
     ref = np.exp(-2j * np.pi / lam * _chi(np, p, alpha, phi))
     tight = case["precision"] == "float64"
+    if np.asarray(got).shape == ref.shape:
+        got = np.where(inside, np.asarray(got), ref)  # pixels outside / on the edge of the aperture are C23's business
     ok, detail, nt = _compare(np, got, ref, _tol(p, lam, amax, tight))
     out.append(Res("C21/kernel-on-grid/equals-polar-expansion", ok,
-                   f"{case['cls']} gpts={gpts} sampling={samp} E={case['energy']!r} coefficients={p}: {detail}", nt))
+                   f"{case['cls']} gpts={gpts} sampling={samp} E={case['energy']!r} aperture={extra.get('semiangle_cutoff')} "
+                   f"({int(inside.sum())} of {inside.size} pixels compared) coefficients={p}: {detail}", nt and int(inside.sum()) > 1))
     z = complex(np.asarray(got)[0, 0])
     out.append(Res("C21/kernel-on-grid/unit-at-zero-frequency", abs(z - 1) <= 1e-6, f"T(alpha=0)={z!r}", True))
     _rotation_check(np, cls, case, p, alpha, phi, lam, amax, tight, out, extra=grid, grid=True)
